@@ -281,6 +281,7 @@ class Analysis(object):
         self.changed = False
         self.unmodelled = []
         self._gcache = {}
+        self._home_node = {}
         self.deep_sites = set()
         self.scalar_use = set()
         self._lazy = {}
@@ -484,6 +485,7 @@ class Analysis(object):
     def store(self, fr, targets, field, value, op, node):
         """Store `value` under `field` of every object in `targets`; returns nothing.
         Records persistent effects, homes and alias stores."""
+        fr.moved_before = frozenset(fr.moved)
         for t in targets:
             if t[0] == "P":
                 path = canon(t[1] + ((field,) if field is not None else ()))
@@ -509,9 +511,17 @@ class Analysis(object):
                 self.changed = True
             for t, sub in self.reach(value, struct=True):
                 if t[0] == "F":
+                    h = canon(path + sub)
+                    if t in getattr(fr, "moved_before", fr.moved) and t[1] not in self.deep_inner():
+                        for h2 in sorted(self.homes.get(t[1], ())):
+                            if h2 != h and not self.is_scalar_path(h2) and \
+                                    self._home_node.get((t[1], h2)) != id(node):
+                                al = AliasStore(h, h2, fr.func, node, ())
+                                al.guards = self.site_guards(fr.func, node)
+                                fr.emit(al)
                     fr.moved.add(t)
                     hs = self.homes.setdefault(t[1], set())
-                    h = canon(path + sub)
+                    self._home_node.setdefault((t[1], h), id(node))
                     if h not in hs and len(hs) < 4 and not self.is_scalar_path(h):
                         hs.add(h)
                         self.changed = True
@@ -519,6 +529,9 @@ class Analysis(object):
                     al = AliasStore(canon(path + sub), t[1], fr.func, node, ())
                     al.guards = self.site_guards(fr.func, node)
                     fr.emit(al)
+
+    def deep_inner(self):
+        return {s for s in self.deep_sites if s[3].endswith("#in")}
 
     def _escape(self, fr, kind, av, node, callee=None):
         if not any(t[0] == "P" for t, _ in self.reach(av)):
@@ -563,7 +576,14 @@ class Analysis(object):
             env[f.vararg] = frozenset([("O", "varargs")]) | env.get(f.vararg, EMPTY)
         if f.kwarg:
             env[f.kwarg] = frozenset([("O", "kwargs")]) | env.get(f.kwarg, EMPTY)
-        key = (f.qualname, ctx,
+        moved_in = frozenset()
+        if caller is not None and caller.moved:
+            argtags = set()
+            for v in env.values():
+                argtags |= v
+            moved_in = frozenset(t for t, _ in self.reach(frozenset(argtags), struct=True)
+                                 if t in caller.moved)
+        key = (f.qualname, ctx, moved_in,
                tuple(sorted((k, v) for k, v in env.items() if k in params
                             or k == f.vararg or k == f.kwarg or k in f.kwonly)))
         if closure_env is None:
@@ -579,6 +599,7 @@ class Analysis(object):
         self.inprogress.add(key)
         self.ncalls[f.qualname] = self.ncalls.get(f.qualname, 0) + 1
         fr = Frame(f, env, stack, ctx)
+        fr.moved |= moved_in
         try:
             self.block(fr, node.body)
         finally:
@@ -647,7 +668,7 @@ class Analysis(object):
                 refs.add(t)
         refs.discard(S)
         refs = frozenset(refs)
-        site_g = self.site_guards(fr.func, node)
+        fr.moved_before = frozenset(fr.moved)
         for t in left:
             if t[0] == "P":
                 self.container_use.add(t[1])
@@ -1156,12 +1177,30 @@ class Analysis(object):
                 kwargs["**"] = kwargs.get("**", EMPTY) | self.elems(v)
             else:
                 kwargs[k.arg] = v
+        if (isinstance(e.func, ast.Name) and e.func.id == "zip" and len(e.args) == 1
+                and isinstance(e.args[0], ast.Starred) and "zip" not in fr.env):
+            return self._zip_star(fr, e, self.expr(fr, e.args[0].value))
         # method call on a container-ish receiver?
         if isinstance(e.func, ast.Attribute):
             recv = self.expr(fr, e.func.value)
             return self.call_method(fr, recv, e.func.attr, args, kwargs, e)
         fv = self.expr(fr, e.func)
         return self.call_value(fr, fv, args, kwargs, e)
+
+    def _zip_star(self, fr, e, x):
+        """zip(*rows): element i of the result is the tuple of the i-th components."""
+        comps = {}
+        for row in self.elems(x):
+            if row[0] == "F":
+                for fld, vals in self.heap.get(row[1], {}).items():
+                    comps.setdefault(fld, set()).update(vals)
+            else:
+                comps.setdefault("*", set()).add(row)
+        fields = {}
+        for fld, vals in comps.items():
+            col = self.fresh(fr, e, "zipcol%s" % fld, {"*": frozenset(vals)})
+            fields[fld] = col
+        return self.fresh(fr, e, "zipstar", fields)
 
     def call_method(self, fr, recv, name, args, kwargs, e):
         out = set()
@@ -1385,6 +1424,11 @@ class Analysis(object):
         if name in CONTAINER_FUNCS:
             if not args:
                 return self.fresh(fr, e, name, {})
+            if name in ("list", "tuple") and len(a0) == 1:
+                (t,) = a0
+                flds = self.heap.get(t[1], {}) if t[0] == "F" else {}
+                if flds and all(k.isdigit() for k in flds):
+                    return self.fresh(fr, e, name, {k: frozenset(v) for k, v in flds.items()})
             return self.fresh(fr, e, name, {"*": self.elems(a0)})
         if name == "dict":
             if not args and not kwargs:
